@@ -374,3 +374,155 @@ Proof.
   apply lift0_write_safe; auto; try lia.
   eapply region_grows; [exact Ga|]. apply dst_ptr_slot; auto. lia.
 Qed.
+
+Lemma wp_step f : P_cs f -> P_wp (S f).
+Proof.
+  intros IH w dsid off src fc Hd Hm Hr Hreg Hs Hsh. cbn [write_ptr].
+  destruct (p_valid src) eqn:V; cbn [negb]; [|apply lift0_write_safe; assumption].
+  pose proof (Hs V) as [Hseg Hobj]. specialize (Hsh V). unfold wf_obj in Hobj.
+  destruct (p_kind src) eqn:K.
+  - (* struct *)
+    destruct Hobj as (Hz & Ho & He).
+    destruct (os_isZero (p_size src)).
+    { destruct (rawStructPointer (-1) (mkOS 0 0)) eqn:E; [|vm_compute in E; discriminate].
+      cbn [of_opt_panic bind]. apply lift0_write_safe; assumption. }
+    cbn [is_src]. rewrite Bool.orb_true_r. cbn [orb].
+    pose proof (alloc_nopanic (w_dst w) dsid (totalSize (p_size src))) as NP.
+    destruct (alloc (w_dst w) dsid (totalSize (p_size src))) as [[[m1 nsid] naddr]| |] eqn:EA; cbn [bind];
+      [|exact I|congruence].
+    pose proof (totalSize_bound _ Hz) as Hts.
+    destruct (alloc_safe (w_dst w) dsid (totalSize (p_size src)) m1 nsid naddr Hd (proj1 Hreg) ltac:(lia) EA)
+      as (D1 & G1 & S1 & A0 & A1 & A2 & A3 & _).
+    assert (wgood w (w_set_dst w m1)) as Gw1 by (apply wgood_set_dst; auto).
+    set (dstp := mkPtr true nsid naddr 0 (p_size src) maxDepth KStruct false false false).
+    pose proof (IH (w_set_dst w m1) dstp src D1 Hm Hr) as C.
+    assert (dst_ok m1 dstp) as Hdo.
+    { split; [reflexivity|]. split; [exact Hz|]. unfold dstp, region_ok. cbn [p_seg p_off p_size].
+      rewrite (totalSize_wf _ Hz) in *. lia. }
+    specialize (C Hdo (conj Hs (fun _ => K))).
+    destruct (copy_struct f true (w_set_dst w m1) dstp InSrc src) as [w2| |]; cbn [bind]; [|exact I|exact C].
+    cbn [rpost] in C. pose proof (wgood_trans _ _ _ Gw1 C) as G2. destruct G2 as (D2 & Gr2 & S2 & R2).
+    destruct (rawStructPointer_some 0 (p_size dstp) Hsh) as [raw ->]. cbn [of_opt_panic bind].
+    eapply rpost_trans; [split; [exact D2|split; [exact Gr2|split; [exact S2|exact R2]]]|].
+    apply place_safe; auto; try lia.
+    + eapply region_grows; eassumption.
+    + unfold dstp. cbn [p_seg]. destruct Gr2 as [Gn _]. cbn [w_dst w_set_dst] in *.
+      destruct C as (_ & [Gn2 _] & _). cbn [w_dst w_set_dst] in Gn2. lia.
+  - (* list *)
+    destruct Hobj as (Ho & Hl & Hr').
+    cbn [is_src]. rewrite Bool.orb_true_r.
+    destruct (seg_of_ok (w_src w) src Hm) as [Hsl _].
+    (* content size of the list and what list_allocSize asks for *)
+    set (content := if p_bit src then (p_len src + 7) / 8 else p_len src * totalSize (p_size src)).
+    assert (0 <= content /\ p_off src + content <= zlen (seg_of (w_src w) src)) as [Hc0 Hc1].
+    { unfold content. destruct (p_bit src); [lia|]. destruct Hr' as [Hz Hr']. pose proof (totalSize_bound _ Hz). split; [nia|lia]. }
+    assert (list_allocSize src = if p_comp src then content + 8 else content) as Hsz.
+    { unfold list_allocSize, content. rewrite V. cbn [negb].
+      destruct (p_bit src) eqn:B.
+      - destruct (p_comp src); [destruct Hsh as (_ & _ & X); discriminate X|]. apply bitListSize_spec. lia.
+      - destruct Hr' as [Hz Hr']. pose proof (totalSize_bound _ Hz).
+        rewrite Z.mul_comm. rewrite times_some by (rewrite Z.mul_comm; nia). rewrite (Z.mul_comm (totalSize _)).
+        destruct (p_comp src); cbn [negb]; [|reflexivity]. destruct Hsh as (H8 & _). unfold maxSegmentSize in Hsl.
+        apply u32_id. lia. }
+    pose proof (alloc_nopanic (w_dst w) dsid (list_allocSize src)) as NP.
+    destruct (alloc (w_dst w) dsid (list_allocSize src)) as [[[m1 nsid] naddr]| |] eqn:EA; cbn [bind];
+      [|exact I|congruence].
+    destruct (alloc_safe (w_dst w) dsid (list_allocSize src) m1 nsid naddr Hd (proj1 Hreg)
+                ltac:(rewrite Hsz; destruct (p_comp src); lia) EA) as (D1 & G1 & S1 & A0 & A1 & A2 & A3 & _).
+    assert (wgood w (w_set_dst w m1)) as Gw1 by (apply wgood_set_dst; auto).
+    (* the part after the (optional) tag word, for any start offset of the elements *)
+    match goal with |- rpost w (bind (bind _ ?K1) ?K0) =>
+      assert (forall w2 doff, wgood w w2 -> 0 <= doff -> naddr <= doff ->
+                doff + content <= zlen (mem m1 nsid) -> grows m1 (w_dst w2) ->
+                (if p_comp src then doff = naddr + 8 else doff = naddr) ->
+                rpost w (bind (K1 (w2, doff, content)) K0)) as Htail end.
+    { intros w2 doff Gw2 Hd0 Hd1 Hd2 Gm Hdo. cbv beta iota zeta.
+      destruct Gw2 as (D2 & Gr2 & S2 & R2).
+      set (dstl := mkPtr true nsid doff (p_len src) (p_size src) maxDepth KList (p_comp src) (p_bit src) false).
+      assert (region_ok (w_dst w2) nsid doff content) as Rl.
+      { eapply region_grows; [exact Gm|]. unfold region_ok. lia. }
+      assert (rpost w2 (if p_bit src || (PointerCount (p_size src) =? 0)
+                        then copy_bytes w2 InSrc (p_seg src) (p_off src) nsid doff content
+                        else fold_res (iota (Z.to_nat (list_len src))) w2
+                               (fun wa i => do de <- list_struct true dstl i; do se <- list_struct true src i;
+                                            copy_struct f true wa de InSrc se))) as H3.
+      { destruct (p_bit src || (PointerCount (p_size src) =? 0)) eqn:Ebp.
+        - unfold copy_bytes. cbn [w_segs]. rewrite S2.
+          change (nth (Z.to_nat (p_seg src)) (w_src w) []) with (seg_of (w_src w) src).
+          unfold maxSegmentSize in Hsl. rewrite slice_ok by lia. cbn [bind].
+          destruct (seg_write_safe (w_dst w2) nsid doff (sub (seg_of (w_src w) src) (p_off src) content) D2
+                      ltac:(rewrite sub_length by lia; exact Rl)) as (m3 & -> & D3 & N3 & L3 & _).
+          cbn. apply wgood_set_dst; auto; try lia. apply same_len_grows; auto.
+        - assert (p_bit src = false) as B by (destruct (p_bit src); [discriminate|reflexivity]).
+          unfold content in *. rewrite B in *. destruct Hr' as [Hz Hr'].
+          pose proof (totalSize_bound _ Hz) as Hts. pose proof (totalSize_wf _ Hz) as Ets.
+          apply (fold_res_post (wgood w2)); [|apply wgood_refl; auto; lia].
+          intros i wa Hi (Da & Ga & Sa & Ra). apply in_iota in Hi.
+          assert (0 <= i < p_len src) as Hi' by (unfold list_len in Hi; rewrite V in Hi; lia).
+          assert (i * totalSize (p_size src) + totalSize (p_size src) <= p_len src * totalSize (p_size src)) as Hie by nia.
+          assert (0 <= i * totalSize (p_size src)) as Hi0 by nia.
+          destruct D1 as [I1 Sm1]. pose proof (Sm1 nsid) as Smn.
+          destruct (list_struct_at dstl i eq_refl B Hi' ltac:(cbn [p_off p_size dstl]; lia)) as [dd ->].
+          cbn [bind p_seg p_off p_size dstl].
+          pose proof (list_struct_safe true (w_src w) src i Hm (conj Hs (fun _ => K))
+                        ltac:(unfold list_len; rewrite V; lia)) as Hse.
+          destruct (list_struct true src i) as [se| |]; cbn [bind res_sat] in *; [|exact I|exact Hse].
+          eapply rpost_trans; [split; [exact Da|split; [exact Ga|split; [exact Sa|exact Ra]]]|].
+          apply IH; auto; try lia.
+          + rewrite Sa, S2. exact Hm.
+          + split; [reflexivity|]. split; [exact Hz|]. cbn [p_seg p_off p_size].
+            eapply region_grows; [exact Ga|]. destruct Rl as (Q1 & Q2 & Q3). unfold region_ok.
+            rewrite <- Ets. lia.
+          + rewrite Sa, S2. exact Hse. }
+      match goal with |- rpost w (bind (bind ?X _) _) => change X with
+        (if p_bit src || (PointerCount (p_size src) =? 0)
+         then copy_bytes w2 InSrc (p_seg src) (p_off src) nsid doff content
+         else fold_res (iota (Z.to_nat (list_len src))) w2
+                (fun wa i => do de <- list_struct true dstl i; do se <- list_struct true src i;
+                             copy_struct f true wa de InSrc se)) end.
+      destruct (if p_bit src || (PointerCount (p_size src) =? 0) then _ else _) as [w3| |]; cbn [bind];
+        [|exact I|exact H3].
+      cbn [rpost] in H3. fold dstl.
+      pose proof (wgood_trans _ _ _ (conj D2 (conj Gr2 (conj S2 R2))) H3) as G3.
+      destruct G3 as (D3 & Gr3 & S3 & R3).
+      assert (shape_ok dstl) as Hshl.
+      { intros _. cbn [p_kind p_comp p_bit p_size p_off dstl].
+        destruct (p_comp src); [|exact Hsh]. destruct Hsh as (_ & X & Y). split; [lia|]. split; assumption. }
+      pose proof (list_raw_shape dstl eq_refl eq_refl Hshl) as NR.
+      destruct (list_raw dstl) as [raw| |]; cbn [bind]; [|exact I|congruence].
+      eapply rpost_trans; [split; [exact D3|split; [exact Gr3|split; [exact S3|exact R3]]]|].
+      apply place_safe; auto; try lia.
+      - eapply region_grows; eassumption.
+      - cbn [p_seg dstl]. destruct H3 as (_ & [Gn3 _] & _). destruct Gm as [Gnm _]. lia. }
+    destruct (p_comp src) eqn:C.
+    + (* composite: the tag word is copied first *)
+      destruct Hsh as (H8 & _). unfold maxSegmentSize in Hsl.
+      cbn [w_segs w_set_dst w_src w_dst]. rewrite (u32_id (p_off src - 8)) by lia.
+      change (nth (Z.to_nat (p_seg src)) (w_src w) []) with (seg_of (w_src w) src).
+      destruct (readRawPointer_ok (seg_of (w_src w) src) (p_off src - 8) (seg_of_ok _ src Hm) ltac:(lia) ltac:(lia))
+        as [tag [-> _]]. cbn [bind].
+      rewrite Hsz in A2, A3.
+      destruct (writeRaw_safe m1 nsid naddr tag D1 ltac:(unfold region_ok; lia)) as (m2 & -> & D2 & N2 & L2 & _).
+      cbn [lift0 bind].
+      destruct (addSize naddr 8) as [o|] eqn:Eo; [|exact I]. apply addSize_spec in Eo. destruct Eo as [-> _].
+      cbn [bind]. rewrite Hsz. replace (u32 (content + 8 - 8)) with content by (rewrite u32_id; lia).
+      apply Htail; try lia.
+      * cbn [w_set_dst]. eapply wgood_trans; [exact Gw1|].
+        apply wgood_set_dst; auto. apply same_len_grows; auto.
+      * cbn [w_dst w_set_dst]. apply same_len_grows; auto.
+    + cbn [bind]. rewrite Hsz. rewrite Hsz in A2, A3. apply Htail; try lia; auto. apply grows_refl.
+  - (* capability *)
+    cbn [is_src]. cbv zeta.
+    set (m1 := mkBM (bm_arena (w_dst w)) (bm_segs (w_dst w)) (bm_caps (w_dst w) ++ [p_len src]) (bm_rl (w_dst w))).
+    pose proof (lift0_write_safe (mkW m1 (w_src w) (w_src_rl w)) dsid off
+                  (rawInterfacePointer (u32 (zlen (bm_caps (w_dst w))))) (dok_caps _ _ Hd) Hr Hreg) as H.
+    cbn [w_dst] in H. unfold lift0 in *.
+    destruct (writeRawPointer m1 dsid off _) as [m'| |]; cbn [bind rpost] in *; auto.
+Qed.
+
+Theorem copy_all : forall f, P_wp f /\ P_cs f.
+Proof.
+  induction f as [|f [IHw IHc]].
+  - split; intros ?; intros; exact I.
+  - split; [apply wp_step; assumption|apply cs_step; assumption].
+Qed.
